@@ -16,6 +16,9 @@ theorem p1_clean_delivered (tail : List Nat) (ds : List ReadoutDesc) (chunks : L
     (hch : chunks.flatten = tail ++ ds.flatMap ReadoutDesc.encode) :
     ∃ r outs, readAll Reader.init chunks = .ok (r, outs) ∧
       outs.flatten = ds.map expectedReadout := by
-  sorry
+  have h47 : 47 ∉ tail := htail.2
+  have hinv := inv_clean_start Reader.init rfl rfl (by simp [Reader.init, Buf.empty]) tail h47 ds hds
+  rw [← hch] at hinv
+  exact readAll_inv chunks Reader.init _ hinv
 
 end Amshan.C05
